@@ -1003,5 +1003,51 @@ func c15RunRetain(c *mon.Ctx, cs *c15Case) {
 
 	if third := enc(); !bytes.Equal(third[0], ref) {
 		c.Fail(cs.Fn+": writing to earlier encodings changed a later encoding of the decoded object", "result-not-fresh:"+cs.Fn, nil)
+		return
+	}
+
+	// the life of the decoded object after the call: whatever it is then asked to do (be wiped, overwritten, negated, used
+	// as an argument), the buffer it was decoded from stays the caller's. Decode again from a fresh copy, keep the buffer
+	// intact this time, and run the object through its mutators.
+	copy(in, want)
+
+	if err := dec(); err != nil {
+		c.Fail(cs.Fn+" rejected a valid encoding the second time: "+err.Error(), "retain-rejected:"+cs.Fn, nil)
+		return
+	}
+
+	snapshot = append([]byte{}, in[:cap(in)]...)
+	c.Count("decoded-object-mutated-while-buffer-watched")
+
+	var steps []func()
+
+	if isScalar {
+		o := mon.Scal(big.NewInt(5))
+		steps = []func(){
+			func() { s.Zero() }, func() { _ = dec() }, func() { s.Set(nil) }, func() { _ = dec() }, func() { s.Multiply(nil) }, func() { _ = dec() },
+			func() { s.One() }, func() { _ = dec() }, func() { s.MinusOne() }, func() { _ = dec() }, func() { s.SetUInt64(7) }, func() { _ = dec() },
+			func() { s.Add(o); s.Subtract(o); s.Multiply(o); s.Square(); s.Invert(); s.Pow(o) }, func() { _ = dec() },
+			func() { _ = s.CSelect(1, o, s) }, func() { _ = dec() }, func() { o.Add(s); o.Set(s); s.Set(o) },
+		}
+	} else {
+		o := secp256k1.Base().Double()
+		k := mon.Scal(big.NewInt(3))
+		steps = []func(){
+			func() { e.Identity() }, func() { _ = dec() }, func() { e.Base() }, func() { _ = dec() },
+			func() { e.Negate() }, func() { _ = dec() }, func() { e.Double() }, func() { _ = dec() }, func() { e.Add(o); e.Subtract(o); e.Multiply(k) }, func() { _ = dec() },
+			func() { e.Multiply(nil) }, func() { _ = dec() }, func() { o.Add(e); o.Set(e); e.Set(o) },
+		}
+	}
+
+	for i, st := range steps {
+		if pan, pv := mon.Call(st); pan {
+			c.Fail(fmt.Sprintf("%s: step %d of the decoded object's later life panicked: %v", cs.Fn, i, pv), "retain-later-panic:"+cs.Fn, nil)
+			return
+		}
+
+		if !bytes.Equal(in[:cap(in)], snapshot) {
+			c.Fail(fmt.Sprintf("%s: the caller's input buffer was written to AFTER the call returned, by step %d of the decoded object's later life (wipe / overwrite / arithmetic): %s -> %s", cs.Fn, i, mon.H(snapshot), mon.H(in[:cap(in)])), "decode-retains-input-written-later:"+cs.Fn, nil)
+			return
+		}
 	}
 }
